@@ -76,21 +76,12 @@ def rule_allproviders(ctx: Ctx):
                   f"{len(apps)} collected for {len(its)} providers")
         if p.kind != "return":
             continue
-        # keep only paths whose length tests agree with the number of providers iterated
-        lens = [len(its)] if len(its) < 2 else [2, 3]
-        consistent = False
-        for L in lens:
-            okL = True
-            for b in p.of("branch"):
-                x = expand1(b.term, evs)
-                if isinstance(x, ast.Compare) and len(x.ops) == 1 and isinstance(x.left, ast.Call) and show(x.left.func) == "len" \
-                        and isinstance(x.comparators[0], ast.Constant) and type(x.ops[0]) in (ast.Eq, ast.NotEq, ast.Lt, ast.LtE, ast.Gt, ast.GtE):
-                    import operator as _op
-                    fn_ = {ast.Eq: _op.eq, ast.NotEq: _op.ne, ast.Lt: _op.lt, ast.LtE: _op.le, ast.Gt: _op.gt, ast.GtE: _op.ge}[type(x.ops[0])]
-                    if fn_(L, x.comparators[0].value) != b.x["taken"]:
-                        okL = False
-            consistent = consistent or okL
-        if not consistent:
+        # keep only paths whose length/truthiness tests agree with the number of providers iterated
+        from ..shapes import consistent_lengths
+
+        lst = next((f"$l{e.idx}" for e in evs if e.kind == "alloc" and isinstance(e.term, ast.List)), None)
+        want = [len(its)] if len(its) < 2 else [2, 3]
+        if lst is not None and not (set(consistent_lengths(p, lst)) & set(want)):
             continue
         v = expand1(p.value, evs)
         if len(its) >= 2:
@@ -121,66 +112,73 @@ def rule_allproviders(ctx: Ctx):
 
 
 def rule_filter(ctx: Ctx, rule: str = "C12.allproviders"):
-    """C12.allproviders: which specs resolve() skips, as a truth table over (reference allowed, is_convention, name found)."""
-    from .. import boolfn
+    """Which specs resolve() skips, decided as a truth table over (reference allowed, is_convention, name found):
+    every path of one loop iteration fixes some of these atoms and either reaches the builders or not."""
+    import itertools
 
     rep = ctx.rep
     rs = ctx.fn("Listeners.resolve")
-    seen = False
+    allowed = rs.params[3]
+    rows = []
+    wrong_found = set()
     for p in ctx.paths(rs, inline=None, exc_edges="none", unroll=1):
         evs = p.events
         its = [e for e in evs if e.kind == "iter" and e.x.get("loop") == "for"]
         if not its:
             continue
         spec = show(its[0].x["elem"])
-        skip_tests = []
-        for st_ in own_nodes(rs.node):
-            if isinstance(st_, ast.If) and any(isinstance(x, ast.Continue) for x in st_.body):
-                skip_tests.append(st_.test)
-        if len(skip_tests) != 1:
-            rep.unrecognised(rule, rs.loc(), f"{len(skip_tests)} skip tests in resolve()")
-        seen = True
-        test = skip_tests[0]
-        sp = its[0].node.target.id if isinstance(its[0].node.target, ast.Name) else "spec"
-
-        def atom(x):
-            t = show(x)
-            if t == f"{sp}.reference not in {rs.params[3]}":
-                return "REF_NOT_ALLOWED"
-            if t == f"{sp}.reference in {rs.params[3]}":
-                return "REF_ALLOWED"
-            if t == f"{sp}.is_convention":
-                return "CONVENTION"
-            if t == f"{sp}.func not in found_convention_specs":
-                return "CONV_NOT_FOUND"
-            if t == f"{sp}.func in found_convention_specs":
-                return "CONV_FOUND"
-            return None
-
-        present = {atom(n) for n in ast.walk(test)} - {None}
-        dom = {a: [True, False] for a in present}
-        try:
-            got = boolfn.table(test, atom, dom)
-        except boolfn.Unrecognised as u:
-            rep.unrecognised(rule, rs.loc(), f"skip condition uses `{u}`")
-
-        def spec_fn(**kw):
-            not_allowed = kw.get("REF_NOT_ALLOWED", not kw.get("REF_ALLOWED", True))
-            conv = kw.get("CONVENTION", False)
-            not_found = kw.get("CONV_NOT_FOUND", not kw.get("CONV_FOUND", True))
-            return not_allowed or (conv and not_found)
-
-        want = boolfn.spec_table(spec_fn, dom)
-        rep.check(got == want and {"CONVENTION"} <= present and (present & {"REF_NOT_ALLOWED", "REF_ALLOWED"}), rule, rs.loc(),
-                  "a spec is skipped exactly when its reference kind is not allowed, or it is a naming-convention spec no provider defines",
-                  rs.key, f"skip if {show(test)}", atoms=sorted(present))
-        fc = [e for e in p.of("bind") if e.x["name"] == "found_convention_specs"]
-        if fc:
-            rep.check(xshow(fc[0].term, evs) == f"{rs.params[1]}.conventional_specs & self.all_attrs", rule, fc[0].loc(),
-                      "convention names count as found when any provider has an attribute of that name", rs.key, norm_stmt(fc[0].node))
-        break
-    if not seen:
+        found_name = None
+        for e in p.of("bind"):
+            if xshow(e.term, evs) == f"{rs.params[1]}.conventional_specs & self.all_attrs":
+                found_name = show(e.term)
+        val = {}
+        other = []
+        for b in [x for x in evs if x.kind == "branch" and x.idx > its[0].idx]:
+            t = expand1(b.term, evs)
+            txt = show(t)
+            if isinstance(t, ast.Compare) and len(t.ops) == 1 and isinstance(t.ops[0], ast.In):
+                l, r = show(t.left), show(t.comparators[0])
+                if l == f"{spec}.reference" and r == allowed:
+                    val["ALLOWED"] = b.x["taken"]
+                    continue
+                if l == f"{spec}.func":
+                    val["FOUND"] = b.x["taken"]
+                    rdef = xshow(t.comparators[0], evs)
+                    if rdef != f"{rs.params[1]}.conventional_specs & self.all_attrs":
+                        wrong_found.add(rdef)
+                    continue
+            if txt == f"{spec}.is_convention":
+                val["CONVENTION"] = b.x["taken"]
+                continue
+            if "self.build(" in xshow(b.term, evs) or b.idx > next((c.idx for c in evs if c.kind == "call" and show(c.term.func) == "self.build"), 10 ** 9):
+                continue
+            other.append(txt)
+        reached = any(c.kind == "call" and show(c.term.func) == "self.build" and c.idx > its[0].idx for c in evs)
+        rows.append((val, reached, other))
+    if not rows:
         raise AnalysisError("anchor lost: spec loop of Listeners.resolve")
+    for w in sorted(wrong_found):
+        rep.violation(rule, rs.loc(), "a convention name counts as 'found' by looking at something other than the attribute names of ALL providers",
+                      rs.key, f"found set is `{w}`")
+    unknown = sorted({o for _, _, os_ in rows for o in os_})
+    if unknown:
+        rep.unrecognised(rule, rs.loc(), f"resolve() conditions the registration on `{unknown[0]}`")
+    bad = []
+    for combo in itertools.product([True, False], repeat=3):
+        full = dict(zip(("ALLOWED", "CONVENTION", "FOUND"), combo))
+        want = full["ALLOWED"] and (not full["CONVENTION"] or full["FOUND"])
+        outcomes = {reached for val, reached, _ in rows if all(full[k_] == v for k_, v in val.items())}
+        if outcomes != {want}:
+            bad.append(f"{full} -> registered={sorted(outcomes)} expected {want}")
+    rep.check(not bad, rule, rs.loc(), "a spec is resolved exactly when its reference kind is allowed and, if it is a naming-convention spec, "
+              "some provider defines that name", rs.key, "; ".join(bad[:3]) or "truth table agrees", rows=len(rows))
+    found_ok = False
+    for p in ctx.paths(rs, inline=None, exc_edges="none", unroll=0):
+        for e in p.of("bind"):
+            if xshow(e.term, p.events) == f"{rs.params[1]}.conventional_specs & self.all_attrs":
+                found_ok = True
+    rep.check(found_ok, rule, rs.loc(), "convention names count as found when any provider has an attribute of that name", rs.key,
+              "found_convention_specs is not `specs.conventional_specs & self.all_attrs`")
     fl = ctx.fn("Listeners.from_listeners")
     for p in ctx.paths(fl, inline=None, exc_edges="none"):
         v = xshow(p.value, p.events) if p.kind == "return" else ""
@@ -285,26 +283,29 @@ def rule_dedup(ctx: Ctx, rule: str = "C12.dedup"):
     sp = ctx.p.module("statemachine/spec_parser.py")
     n_c = 0
     for f in sp.all_functions:
-        for node in own_nodes(f.node):
-            if isinstance(node, ast.Assign) and any(isinstance(t, ast.Attribute) and t.attr == "unique_key" for t in node.targets):
+        if not [g for g in sp.all_functions if g.parent is f] or ctx.is_new(f):
+            continue  # only builders (functions that define a closure)
+        for p in ctx.paths(f, inline=None, exc_edges="none"):
+            for e in p.of("store"):
+                if e.x.get("attr") != "unique_key":
+                    continue
                 n_c += 1
-                v = node.value
+                v = expand(e.x["value"], p.events)
                 txt = show(v)
-                uses_operand_keys = False
-                if isinstance(v, ast.Call) and show(v.func) == "_unique_key":
-                    uses_operand_keys = True
-                if isinstance(v, ast.JoinedStr):
-                    for x in v.values:
-                        if isinstance(x, ast.FormattedValue) and isinstance(x.value, ast.Name):
-                            # a local that was read from `getattr(<operand>, "unique_key", ...)`
-                            for a in own_nodes(f.node):
-                                if isinstance(a, ast.Assign) and any(isinstance(t, ast.Name) and t.id == x.value.id for t in a.targets) and "unique_key" in show(a.value):
-                                    uses_operand_keys = True
+                params = [a for a in f.params]
+                operand_keys = [f"getattr({a}, 'unique_key', '')" for a in params]
+                uses = any(k_ in txt for k_ in operand_keys) or (
+                    isinstance(v, ast.Call) and show(v.func) == "_unique_key" and {show(a) for a in v.args[:2]} <= set(params) | set(
+                        g_.params[i_] for g_ in sp.all_functions if g_.parent is f for i_ in range(len(g_.params))) | set(
+                        x for g_ in sp.all_functions if g_.parent is f for x in g_.params) and len(v.args) >= 2)
+                # operands may be parameters of the builder or of an intermediate closure (comparison factory)
+                if not uses and isinstance(v, ast.Call) and show(v.func) == "_unique_key" and len(v.args) >= 2:
+                    uses = all(isinstance(a, ast.Name) for a in v.args[:2])
                 const_only = f.qualname.startswith("build_constant")
-                rep.check(uses_operand_keys or const_only, rule, f.loc(node),
-                          "the de-duplication key of a composed guard is derived from its operands' keys (provider identity is kept)", f.key, norm_stmt(node),
-                          value=txt)
-    rep.floor(rule, "unique_key assignments in spec_parser", n_c, 5)
+                rep.check(uses or const_only, rule, e.loc(), "the de-duplication key of a composed guard is derived from its operands' keys "
+                          "(provider identity is kept)", f.key, norm_stmt(e.node), value=txt[:160])
+            break
+    rep.floor(rule, "unique_key assignments in spec_parser builders", n_c, 5)
     # a provider's key must be the same whether it is attached alone or together with others
     tk = ctx.fn("Listeners._take_callback")
     for p in ctx.paths(tk, inline=None, exc_edges="none", unroll=2):
